@@ -313,7 +313,7 @@ def run(tier, seed):
         plan = [(h, 2, 6 if h in big else 2) for h in QUICK] + [(h, 2, 1) for h in ('add|insert', 'add|add', 'raise|add')]
     else:
         plan = [(h, 2, 6 if h in big else 2) for h in HARNESSES] + \
-               [(h, 3, 16) for h in ('add|insert', 'add|add', 'raise|add', 'add3', 'add2|insert', 'add|add,insert')]
+               [(h, 3, 16) for h in ('add|insert', 'add|add', 'raise|add', 'add3')]
     tasks = [(h, b, True, (r, n), False) for h, b, n in plan for r in range(n)]
     # visible-bytecode granularity (switches between the attribute reads of one line)
     if tier == 'quick':
